@@ -381,9 +381,9 @@ class Scenario(object):
             out.append((r, n))
         return out
 
-    def run(self, schedule, first):
+    def run(self, schedule, first, expire_timeouts=False):
         self.setup()
-        r = dsched.Run(self.thunks, schedule, first=first)
+        r = dsched.Run(self.thunks, schedule, first=first, expire_timeouts=expire_timeouts)
         res = r.run()
         return res, r
 
@@ -408,7 +408,7 @@ def examine(case):
     sc = Scenario(case['scenario'], case['thunks'], case.get('fill', 0), case.get('warm', False), case.get('prefix', ()))
     with _stdout_guard():
         want = [norm(r) for r, n in sc.solo()]
-        res, run = sc.run([tuple(s) for s in case['schedule']], case.get('first', 0))
+        res, run = sc.run([tuple(s) for s in case['schedule']], case.get('first', 0), bool(case.get('expire_timeouts')))
     got = [norm(r) for r in res]
     return judge(case, got, want, run)
 
@@ -467,6 +467,17 @@ def _shard(ctx, payload):
             sc.setup()
             r = dsched.Run(sc.thunks, schedule, first=first)
             res = r.run()
+            if r.timed_acquires and not r.hung:
+                # the library waits for a lock only for a while: the same schedule once more with those waits running out
+                sc.setup()
+                r2 = dsched.Run(sc.thunks, schedule, first=first, expire_timeouts=True)
+                res2 = r2.run()
+                got2 = [norm(x) for x in res2]
+                ctx.count()
+                ctx.label('schedules-with-lock-waits-expiring')
+                if got2 != want:
+                    ctx.violations(judge(dict(case, expire_timeouts=True), got2, want, r2))
+                    ctx.label('diverging-schedules')
         got = [norm(x) for x in res]
         ctx.count()
         if r.free:
@@ -613,6 +624,15 @@ def explore(ctx, rng, names, prefix, fill, per, single_cap):
             sc.setup()
             r = dsched.Run(sc.thunks, schedule, first=first)
             res = r.run()
+            if r.timed_acquires and not r.hung:
+                sc.setup()
+                r2 = dsched.Run(sc.thunks, schedule, first=first, expire_timeouts=True)
+                got2 = [norm(x) for x in r2.run()]
+                ctx.count()
+                ctx.label('schedules-with-lock-waits-expiring')
+                if got2 != want:
+                    ctx.violations(judge(dict(case, expire_timeouts=True), got2, want, r2))
+                    ctx.label('diverging-schedules')
         got = [norm(x) for x in res]
         ctx.count()
         if got != want:
